@@ -1915,6 +1915,11 @@ func (ce *callEngine) callNativeFunc(ctx context.Context, m *wasm.ModuleInstance
 			offset := ce.popMemoryOffset(op)
 			switch op.B1 {
 			case v128LoadType128:
+				// offset+8 below is computed in 32 bits: an access straddling 2^32 must trap instead of
+				// reading its upper half from the start of the memory (same guard as operationKindV128Store).
+				if uint64(offset)+8 > math.MaxUint32 {
+					panic(wasmruntime.ErrRuntimeOutOfBoundsMemoryAccess)
+				}
 				lo, ok := memoryInst.ReadUint64Le(offset)
 				if !ok {
 					panic(wasmruntime.ErrRuntimeOutOfBoundsMemoryAccess)
